@@ -22,14 +22,15 @@ CONSTANT DEV_BackslashNotEscaped   \* metric.go buildLabelValueKey escapes only 
 
 \* strings.ReplaceAll(label, "-", "\\-"); the corrected design also escapes
 \* the escape character itself
-EscWith(dev, s) ==
-  FlattenSeq([i \in 1..Len(s) |->
-     IF s[i] = "-" THEN <<"\\", "-">>
-     ELSE IF s[i] = "\\" /\ ~dev THEN <<"\\", "\\">>
-     ELSE <<s[i]>>])
+EscChar(dev, c) == IF c = "-" THEN <<"\\", "-">>
+                   ELSE IF c = "\\" /\ ~dev THEN <<"\\", "\\">>
+                   ELSE <<c>>
+RECURSIVE EscWith(_, _)
+EscWith(dev, s) == IF s = <<>> THEN <<>> ELSE EscChar(dev, Head(s)) \o EscWith(dev, Tail(s))
 
-\* for each label: escaped label, then the separator "-"
-KeyWith(dev, t) == FlattenSeq([i \in 1..Len(t) |-> EscWith(dev, t[i]) \o <<"-">>])
+\* for i := 0; i < len(labels); i++ { buf.WriteString(escaped label); buf.WriteString("-") }
+RECURSIVE KeyWith(_, _)
+KeyWith(dev, t) == IF t = <<>> THEN <<>> ELSE EscWith(dev, Head(t)) \o <<"-">> \o KeyWith(dev, Tail(t))
 
 Key(t) == KeyWith(DEV_BackslashNotEscaped, t)
 
@@ -70,11 +71,13 @@ Result(M, err, id, created) == [M |-> M, err |-> err, id |-> id, created |-> cre
 (* metric.go, one operator per method *)
 
 \* func (m *Metric) FindLabelValueOrNil(labelvalues []string) *LabelValue
-FindLabelValueOrNil(M, t) == IF Key(t) \in DOMAIN M.idx THEN M.idx[Key(t)] ELSE NilId
+\*   k := buildLabelValueKey(labelvalues); lv, ok := m.labelValuesMap[k]
+FindByKey(M, k) == IF k \in DOMAIN M.idx THEN M.idx[k] ELSE NilId
+FindLabelValueOrNil(M, t) == FindByKey(M, Key(t))
 
 \* func (m *Metric) AppendLabelValue(lv *LabelValue) error   (arity checked by the callers modelled here)
 AppendLabelValue(M, lv) ==
-  [lvs |-> Append(M.lvs, lv), idx |-> Put(M.idx, Key(lv.labels), lv.id)]
+  LET k == Key(lv.labels) IN [lvs |-> Append(M.lvs, lv), idx |-> Put(M.idx, k, lv.id)]
 
 \* func (m *Metric) GetDatum(labelvalues ...string) (datum.Datum, error)
 \* zero = [val, time] of a freshly made datum of the metric's type
